@@ -21,7 +21,7 @@ func main() {
 		return
 	}
 	key := os.Args[1]
-	if last := os.Args[len(os.Args)-1]; last == "dup" || last == "vc" {
+	if last := os.Args[len(os.Args)-1]; last == "dup" || last == "split" {
 		key += ":" + last
 	}
 	f, ok := checks[key]
